@@ -48,6 +48,7 @@ type DiffCase struct {
 	Orig   string
 	New    string
 	Expect string
+	Decls  string // top-level declarations the case needs (generic functions)
 	Inputs []Input
 	Tag    interface{} // carried through to the report
 }
@@ -182,6 +183,28 @@ var gf func(int) int = hi
 
 func hj(x int) int { note(fmt.Sprint("hj ", x)); return x * 3 }
 
+// a variadic function that is sensitive to the order of its arguments, a slice reversal, a linked list
+func vsum(xs ...int) int {
+	r := 0
+	for i, x := range xs {
+		r += (i + 1) * x
+	}
+	return r
+}
+
+func rev(xs []int) []int {
+	out := make([]int, len(xs))
+	for i, x := range xs {
+		out[len(xs)-1-i] = x
+	}
+	return out
+}
+
+type node struct {
+	v    int
+	next *node
+}
+
 func setG() { gxs = []int{1} }
 
 func run(f func(in) interface{}, i in) (out string) {
@@ -277,6 +300,13 @@ func RunDiff(workDir string, cases []*DiffCase) ([]Mismatch, int, error) {
 	var b strings.Builder
 	b.WriteString(diffPrelude)
 	b.WriteString(FmtCatalogue())
+	seenDecl := map[string]bool{}
+	for _, c := range cases {
+		if c.Decls != "" && !seenDecl[c.Decls] {
+			seenDecl[c.Decls] = true
+			b.WriteString("\n" + c.Decls + "\n")
+		}
+	}
 	b.WriteString("\nvar fns = map[int][2]func(in) interface{}{\n")
 	type spec struct {
 		ID     int     `json:"id"`
